@@ -17,7 +17,7 @@ FirstReserved == 19000
 LastReserved == 19999
 
 Tag(cond, name) == IF cond THEN {name} ELSE {}
-HasDup(seq) == \E i, j \in 1..Len(seq) : i < j /\ seq[i] = seq[j]
+HasDup(seq) == Cardinality({seq[i] : i \in 1..Len(seq)}) < Len(seq)
 InRanges(rs, n, incl) == \E q \in 1..Len(rs) : rs[q][1] <= n /\ (IF incl THEN n <= rs[q][2] ELSE n < rs[q][2])
 
 \* [lo, hi] inclusive bounds of range k
@@ -54,7 +54,7 @@ FileDefects(ctx, f) ==
   \cup Tag(f.pkg # "" /\ ~IsFullIdent(f.pkg), "package")
   \cup Tag(\E i \in 1..Len(f.deps) : f.deps[i].missing /\ ~ctx.allow, "import_unresolved")
   \cup Tag(HasDup(Map(f.deps, LAMBDA d : d.path)) \/ (\E i \in 1..Len(f.deps) : f.deps[i].path = f.path), "import_dup")
-  \cup Tag(\E i \in 1..Len(SimpleNames(f)) : ~IsIdent(SimpleNames(f)[i]), "badname")
+  \cup Tag(LET ns == SimpleNames(f) IN \E i \in 1..Len(ns) : ~IsIdent(ns[i]), "badname")
   \cup Tag(HasDup(DeclNames(ctx, f)), "dupname")
 
 TargetDefect(st, allow) ==
@@ -180,12 +180,12 @@ ExtDefects(ctx, f, i) ==
       mset == resolved /\ (IF ee.r.loc THEN f.msgs[ee.r.i].mset ELSE f.imps[ee.r.i].mset)
   IN TargetDefect(ee.st, ctx.allow) \cup TargetDefect(c.t.st, ctx.allow)
      \cup Tag(x.num < 0 \/ (FirstReserved <= x.num /\ x.num <= LastReserved), "extension_number")
-     \cup Tag(x.label \notin {1, 3}, "extension_label")
+     \cup Tag(c.card \notin {1, 3}, "extension_label")
      \cup Tag(x.hj /\ x.json # JSONCamel(x.name), "extension_json_name")
      \cup Tag(x.oneof # 0, "extension_oneof")
      \cup Tag(resolved /\ ~InRanges(ranges, x.num, FALSE), "extension_not_in_range")
-     \cup Tag(mset /\ ~(c.kind \in {0, KMessage} /\ x.label = 1), "extension_messageset")
-     \cup Tag(x.packed = "t" /\ ~(x.label = 3 /\ c.kind \notin Unpackable), "packed")
+     \cup Tag(mset /\ ~(c.kind \in {0, KMessage} /\ c.card = 1), "extension_messageset")
+     \cup Tag(x.packed = "t" /\ ~(c.card = 3 /\ c.kind \notin Unpackable), "packed")
      \cup (IF c.t.st = "ok" THEN GroupDefects(ctx, f, c, x, full) \cup DefaultDefects(ctx, f, c, x, TRUE) ELSE {})
      \cup Tag(c.t.st = "ok" /\ TargetIsMapEntry(f, c.t), "extension_map_entry")
      \cup Tag(f.syntax = "proto3" /\ ee.st = "ok" /\ ee.full \notin OptionMessages, "proto3_extension")
